@@ -86,6 +86,50 @@ pub fn dispatch(fs: &[String]) -> String {
                 _ => "dynamic".to_string(),
             }
         }
+        "mix_value" => {
+            // the real value parser on `src`: its pieces (static text / binding with the printed expression), and the real value printer
+            use tc::parse::expr::Expression;
+            use tc::parse::tag::Value;
+            use tc::stringify::Stringify;
+            fn print_expr(e: &Expression, src: &str) -> String {
+                let mut st = tc::stringify::Stringifier::new(String::new(), "p", src);
+                e.stringify_write(&mut st).unwrap();
+                st.finish().0
+            }
+            fn is_piece(e: &Expression) -> bool {
+                match e {
+                    Expression::ToStringWithoutUndefined { .. } | Expression::LitStr { .. } => true,
+                    Expression::Plus { left, right, .. } => is_piece(left) && is_piece(right),
+                    _ => false,
+                }
+            }
+            fn pieces(e: &Expression, src: &str, out: &mut Vec<String>) {
+                match e {
+                    Expression::LitStr { value, .. } => out.push(format!("T{}", value)),
+                    Expression::ToStringWithoutUndefined { value, .. } => out.push(format!("B{}", print_expr(value, src))),
+                    Expression::Plus { left, right, .. } if is_piece(left) && is_piece(right) => {
+                        pieces(left, src, out);
+                        pieces(right, src, out);
+                    }
+                    other => out.push(format!("B{}", print_expr(other, src))),
+                }
+            }
+            let src = a(1);
+            let (v, _w, _i, _p) = tc::verif_hooks::verif_parse_value(src);
+            let mut out = vec![];
+            match &v {
+                Value::Static { value, .. } => {
+                    if !value.is_empty() {
+                        out.push(format!("T{}", value));
+                    }
+                }
+                Value::Dynamic { expression, .. } => pieces(expression, src, &mut out),
+                _ => out.push("?".to_string()),
+            }
+            let mut st = tc::stringify::Stringifier::new(String::new(), "p", src);
+            v.stringify_write(&mut st).unwrap();
+            format!("{}\t{}", esc(&out.join("\u{1}")), esc(&st.finish().0))
+        }
         "positions" => {
             // steps: comma separated: `0` = next(), `w` = skip_whitespace(), n = skip_bytes(n)
             let steps: Vec<usize> = a(2)
